@@ -16,6 +16,7 @@ INITIALISMS = ["ACL", "API", "ASCII", "CPU", "CSS", "DNS", "EOF", "GUID", "HTML"
                "RHS", "RPC", "SLA", "SMTP", "SQL", "SSH", "TCP", "TLS", "TTL", "UDP", "UI", "UID", "UUID", "URI", "URL", "UTF8", "VM", "XML",
                "XMPP", "XSRF", "XSS"]
 WORDS = ["User", "File", "Port", "Name", "Server", "Max", "Key", "Docs"]
+PLURALS = ["IDs", "URLs", "IPs"]      # a pluralised initialism is one word; only meaningful at the end of an identifier
 
 
 def write_cfg(d, maxwords, maxlen, letters, digits, vocab, maxitems, emit=True):
@@ -52,7 +53,9 @@ def run_check(pid, tier, replay=None):
             return 1 if bad else 0
         rng = random.Random(C.seed())
         quick = tier == "quick"
-        vocab = INITIALISMS + WORDS if not quick else sorted(set(rng.sample(INITIALISMS, 14) + ["HTTP", "HTTPS", "UI", "UID", "ID", "UUID"] + rng.sample(WORDS, 5)))
+        vocab = INITIALISMS + WORDS if not quick else sorted(set(rng.sample(INITIALISMS, 14) + ["HTTP", "HTTPS", "UI", "UID", "ID", "UUID", "UTF8", "JSON"] + rng.sample(WORDS, 4) + rng.sample(PLURALS, 1)))
+        if not quick:
+            vocab = vocab + PLURALS
         d = scratch.sub("cc")
         write_cfg(d, 3, 2 if quick else 3, ["a", "b"], ["1"], vocab, 3 if quick else 3)
         res = C.run_tlc(d, "CaseConv", "C.cfg", timeout=3000)
@@ -65,7 +68,10 @@ def run_check(pid, tier, replay=None):
             if c["kind"] == "goident":
                 byname.setdefault(c["name"], []).append(c)
         ambiguous = {n for n, cs in byname.items() if len(cs) > 1}
-        todo = [c for c in cases if c["kind"] == "words" or c["name"] not in ambiguous]
+        todo = [c for c in cases if c["kind"] == "words" or
+                (c["name"] not in ambiguous and not any(it in PLURALS for it in c["items"][:-1])
+                 # a pluralised initialism is recognisable only directly after a capitalised word (UserIDs)
+                 and not (c["items"][-1] in PLURALS and (len(c["items"]) < 2 or c["items"][-2] not in WORDS)))]
         for i, c in enumerate(todo):
             c["id"] = "cc%d" % i
         recs, crashes, executed = run_driver(vh, scratch, "caseconv", [json.dumps(c) for c in todo])
